@@ -231,6 +231,7 @@ package op
 // ---- printed forms read back (C10) ----
 
 //@ func lemmaC10Key returns (x, err)
+//@   inlines op.Key.String
 //@   requires validKey(k)
 //@   ensures err == nil && x == k
 
@@ -270,3 +271,31 @@ package op
 //@   ensures (err == nil) == (dynOf(value.Value) != UnknownDynamicSign)
 //@   ensures err == nil ==> *d == dynOf(value.Value) && validDyn(*d)
 //@   ensures err != nil ==> *d == old(*d)
+
+// ---- listings are in a fixed order (C12) ----
+
+//@ define nameStr(n) ite(n == note.C, "C", ite(n == note.D, "D", ite(n == note.E, "E", ite(n == note.F, "F", ite(n == note.G, "G", ite(n == note.A, "A", ite(n == note.B, "B", "")))))))
+//@ define accStr(a) ite(a == Sharp, "#", ite(a == Flat, "b", ""))
+//@ define keyStr(k) nameStr(k.Name) + accStr(k.Accidental) + ite(k.Minor, "m", "")
+
+//@ func Key.String returns (s)
+//@   pure
+//@   ensures s == keyStr(k)
+
+// the comparator AllScales sorts with: by printed key name
+//@ func AllScales$1 returns (r)
+//@   pure
+//@   requires a != nil && b != nil
+//@   ensures (r <= 0) == (keyStr(a.Key) <= keyStr(b.Key))
+
+// AllScales: one scale per entry of the key-signature table, listed by printed key name whatever order the
+// table was walked in
+//@ func AllScales returns (r)
+//@   allocs Scale, ScaleNote, []*Scale
+//@   ensures len(r) == len(keySignatures)
+//@   ensures forall(i, 0, len(r), r[i] != nil)
+//@   ensures forall(i, 0, len(r) - 1, keyStr(r[i].Key) <= keyStr(r[i+1].Key))
+//@   loop 0 allocs Scale, ScaleNote
+//@   loop 0 modifies scales
+//@   loop 0 invariant i == rangecount() && 0 <= i && i <= len(scales)
+//@   loop 0 invariant forall(j, 0, i, scales[j] != nil)
